@@ -302,6 +302,447 @@ fn canary_jsonl(ev: &LogEvent, f: &mut Formatter<'_>, tags: &TagList, v: &TagVal
     let r1 = write_json_str(f, "a\"b");
     let r2 = tags.fmt(f);
     let r3 = v.fmt(f);
-    proof { axiom_dec_int(5); axiom_pad_int(7, 2); thm_one_line(*ev); }
+    proof { axiom_dec_int(5); axiom_pad_int(7, 2); thm_one_line(*ev); if event_ok2(*ev) { thm_line_is_object(*ev); } }
     assert(false);
+}
+
+// ---- the whole line as one JSON object (RFC 8259 section 4, restricted to what a log line may contain: a flat object
+// whose values are strings or bare tokens -- numbers, true, false, null), read by a reader written from the grammar
+pub enum JVal { Str(Seq<char>), Raw(Seq<char>) }
+pub open spec fn raw_end(t: Seq<char>, i: int) -> int decreases t.len() - i {
+    if i < 0 || i >= t.len() { t.len() as int } else if t[i] == ',' || t[i] == '}' { i } else { raw_end(t, i + 1) }
+}
+// a bare token: non-empty, no quote, no separator, no blank or control character
+pub open spec fn raw_ok(tok: Seq<char>) -> bool {
+    tok.len() > 0 && forall|k: int| 0 <= k < tok.len() ==> (#[trigger] tok[k]) != '"' && tok[k] != ',' && tok[k] != '}' && tok[k] != ':' && (tok[k] as u32) > 0x20
+}
+// one member starting at the opening quote of its key: the member and the index just after its value
+#[verifier::opaque]
+pub open spec fn parse_one(t: Seq<char>, i: int) -> Option<((Seq<char>, JVal), int)> {
+    if i < 0 || i >= t.len() || t[i] != '"' { None }
+    else {
+        match dec(t, i + 1) {
+            None => None,
+            Some((key, j)) =>
+                if j <= i || j + 1 >= t.len() || t[j] != ':' { None }
+                else if t[j + 1] == '"' { match dec(t, j + 2) { Some((s, k)) => Some(((key, JVal::Str(s)), k)), None => None } }
+                else {
+                    let e = raw_end(t, j + 1);
+                    if raw_ok(t.subrange(j + 1, e)) { Some(((key, JVal::Raw(t.subrange(j + 1, e))), e)) } else { None }
+                },
+        }
+    }
+}
+pub open spec fn parse_members(t: Seq<char>, i: int) -> Option<(Seq<(Seq<char>, JVal)>, int)>
+    decreases t.len() - i
+{
+    match parse_one(t, i) {
+        None => None,
+        Some((m, k)) =>
+            if k <= i || k >= t.len() { None }
+            else if t[k] == '}' { Some((seq![m], k + 1)) }
+            else if t[k] == ',' { match parse_members(t, k + 1) { Some((rest, end)) => Some((seq![m] + rest, end)), None => None } }
+            else { None },
+    }
+}
+pub open spec fn parse_line(t: Seq<char>) -> Option<Seq<(Seq<char>, JVal)>> {
+    if t.len() < 4 || t[0] != '{' { None }
+    else { match parse_members(t, 1) { Some((ms, end)) => if end == t.len() - 1 && t[end] == '\n' { Some(ms) } else { None }, None => None } }
+}
+// the writing side of one member / a member list (back-recursive like tags_json)
+pub open spec fn val_text(v: JVal) -> Seq<char> { match v { JVal::Str(s) => json_str(s), JVal::Raw(r) => r } }
+#[verifier::opaque]
+pub open spec fn mem_text(m: (Seq<char>, JVal)) -> Seq<char> { json_str(m.0) + seq![':'] + val_text(m.1) }
+pub open spec fn mems_text(ms: Seq<(Seq<char>, JVal)>) -> Seq<char> decreases ms.len() {
+    if ms.len() == 0 { Seq::empty() } else if ms.len() == 1 { mem_text(ms[0]) } else { mems_text(ms.drop_last()) + seq![','] + mem_text(ms.last()) }
+}
+pub open spec fn val_ok(v: JVal) -> bool { v matches JVal::Raw(r) ==> raw_ok(r) }
+pub proof fn lemma_raw_end(pre: Seq<char>, r: Seq<char>, rest: Seq<char>, k: int)
+    requires raw_ok(r), 0 <= k <= r.len(), rest.len() > 0, rest[0] == ',' || rest[0] == '}'
+    ensures raw_end(pre + r + rest, pre.len() + k) == pre.len() + r.len()
+    decreases r.len() - k
+{
+    let t = pre + r + rest;
+    if k < r.len() { assert(t[pre.len() + k] == r[k]); lemma_raw_end(pre, r, rest, k + 1); }
+    else { assert(t[(pre.len() + r.len()) as int] == rest[0]); }
+}
+pub proof fn lemma_mems_front(ms: Seq<(Seq<char>, JVal)>)
+    requires ms.len() >= 2
+    ensures mems_text(ms) == mem_text(ms[0]) + seq![','] + mems_text(ms.skip(1))
+    decreases ms.len()
+{
+    if ms.len() == 2 {
+        assert(ms.drop_last().len() == 1 && ms.drop_last()[0] == ms[0]);
+        assert(ms.skip(1).len() == 1 && ms.skip(1)[0] == ms[1]);
+        assert(ms.last() == ms[1]);
+        assert(mems_text(ms.drop_last()) == mem_text(ms[0]));
+        assert(mems_text(ms.skip(1)) == mem_text(ms[1]));
+    } else {
+        lemma_mems_front(ms.drop_last());
+        assert(ms.drop_last().skip(1) =~= ms.skip(1).drop_last());
+        assert(ms.skip(1).last() == ms.last());
+        assert(ms.drop_last()[0] == ms[0]);
+        let a = mem_text(ms[0]); let c = seq![',']; let m = mems_text(ms.skip(1).drop_last()); let z = mem_text(ms.last());
+        assert(mems_text(ms) == ((a + c) + m) + c + z);
+        assert(mems_text(ms.skip(1)) == m + c + z);
+        assert(((a + c) + m) + c + z =~= (a + c) + (m + c + z));
+    }
+}
+// one member as written, followed by ',' or '}', reads back as itself and ends where the separator is
+pub proof fn lemma_parse_one(pre: Seq<char>, m0: (Seq<char>, JVal), tail: Seq<char>)
+    requires val_ok(m0.1), tail.len() > 0, tail[0] == ',' || tail[0] == '}'
+    ensures parse_one(pre + mem_text(m0) + tail, pre.len() as int) == Some((m0, (pre.len() + mem_text(m0).len()) as int)),
+        (pre + mem_text(m0) + tail)[(pre.len() + mem_text(m0).len()) as int] == tail[0],
+        mem_text(m0).len() > 0,
+{
+    reveal(parse_one);
+    reveal(mem_text);
+    let t = pre + mem_text(m0) + tail;
+    let i = pre.len() as int;
+    let key = json_str(m0.0);
+    let vt = val_text(m0.1);
+    assert(t =~= pre + key + (seq![':'] + vt + tail));
+    thm_json_str_reads_back(m0.0, pre, seq![':'] + vt + tail);
+    let j = i + key.len();
+    assert(key[0] == '"');
+    assert(t[i] == key[0]);
+    assert(t[j] == ':');
+    match m0.1 {
+        JVal::Str(s) => {
+            thm_json_str_reads_back(s, pre + key + seq![':'], tail);
+            assert(t =~= (pre + key + seq![':']) + json_str(s) + tail);
+            assert(json_str(s)[0] == '"');
+            assert(t[j + 1] == json_str(s)[0]);
+        },
+        JVal::Raw(r) => {
+            assert(t =~= (pre + key + seq![':']) + r + tail);
+            assert(t[j + 1] == r[0]);
+            lemma_raw_end(pre + key + seq![':'], r, tail, 0);
+            assert(t.subrange(j + 1, j + 1 + r.len()) =~= r);
+        },
+    }
+    assert(t[j + 1 + vt.len()] == tail[0]);
+}
+// a member list as written, followed by '}', reads back as the same list and ends just after the '}'
+pub proof fn lemma_parse_members(pre: Seq<char>, ms: Seq<(Seq<char>, JVal)>, rest: Seq<char>)
+    requires ms.len() >= 1, forall|i: int| 0 <= i < ms.len() ==> val_ok(#[trigger] ms[i].1)
+    ensures parse_members(pre + mems_text(ms) + seq!['}'] + rest, pre.len() as int) == Some((ms, (pre.len() + mems_text(ms).len() + 1) as int))
+    decreases ms.len()
+{
+    let t = pre + mems_text(ms) + seq!['}'] + rest;
+    let m0 = ms[0];
+    if ms.len() == 1 {
+        let tail = seq!['}'] + rest;
+        assert(mems_text(ms) == mem_text(m0));
+        assert(t =~= pre + mem_text(m0) + tail);
+        lemma_parse_one(pre, m0, tail);
+        assert(seq![m0] =~= ms);
+        let k = (pre.len() + mem_text(m0).len()) as int;
+        assert(t[k] == '}');
+        assert(parse_members(t, pre.len() as int) == Some((seq![m0], k + 1)));
+    } else {
+        lemma_mems_front(ms);
+        let tail = seq![','] + mems_text(ms.skip(1)) + seq!['}'] + rest;
+        assert(t =~= pre + mem_text(m0) + tail);
+        lemma_parse_one(pre, m0, tail);
+        let pre2 = pre + mem_text(m0) + seq![','];
+        assert(t =~= pre2 + mems_text(ms.skip(1)) + seq!['}'] + rest);
+        assert forall|q: int| 0 <= q < ms.skip(1).len() implies val_ok(#[trigger] ms.skip(1)[q].1) by { assert(ms.skip(1)[q] == ms[q + 1]); }
+        lemma_parse_members(pre2, ms.skip(1), rest);
+        assert(seq![m0] + ms.skip(1) =~= ms);
+        assert(mems_text(ms).len() == mem_text(m0).len() + 1 + mems_text(ms.skip(1)).len());
+        let k = (pre.len() + mem_text(m0).len()) as int;
+        assert(t[k] == ',');
+        assert(pre2.len() == k + 1);
+        assert(parse_members(t, k + 1) == Some((ms.skip(1), (pre2.len() + mems_text(ms.skip(1)).len() + 1) as int)));
+    }
+}
+
+// ---- the line a log event is written as IS one such object, with exactly the expected members
+pub open spec fn jval(v: TagValue) -> JVal {
+    match v { TagValue::Str(x) => JVal::Str(x@), TagValue::String(x) => JVal::Str(x@), _ => JVal::Raw(value_json(v)) }
+}
+pub open spec fn tag_member(t: Tag) -> (Seq<char>, JVal) { (t.name@, jval(t.value)) }
+pub open spec fn tag_members(ts: Seq<Tag>) -> Seq<(Seq<char>, JVal)> { ts.map_values(|t: Tag| tag_member(t)) }
+pub open spec fn k_time() -> Seq<char> { seq!['t', 'i', 'm', 'e'] }
+pub open spec fn k_level() -> Seq<char> { seq!['l', 'e', 'v', 'e', 'l'] }
+pub open spec fn k_time_ns() -> Seq<char> { seq!['t', 'i', 'm', 'e', '_', 'n', 's'] }
+// (taken from the property: the fixed time, level and time_ns members and one member per tag, in this order)
+pub open spec fn line_members(ev: LogEvent) -> Seq<(Seq<char>, JVal)> {
+    seq![(k_time(), JVal::Str(time_text(datetime_of(ev.time_())))), (k_level(), JVal::Str(level_text(ev.level_())))]
+        + tag_members(ev.tags_().0@) + seq![(k_time_ns(), JVal::Raw(dec_int(epoch_ns_of(ev.time_()) as int)))]
+}
+pub open spec fn plain(s: Seq<char>) -> bool { forall|k: int| 0 <= k < s.len() ==> (#[trigger] s[k]) as u32 >= 0x20 && s[k] != '"' && s[k] != '\\' }
+pub proof fn lemma_plain_add(a: Seq<char>, b: Seq<char>)
+    requires plain(a), plain(b)
+    ensures plain(a + b)
+{
+    assert forall|k: int| 0 <= k < (a + b).len() implies (#[trigger] (a + b)[k]) as u32 >= 0x20 && (a + b)[k] != '"' && (a + b)[k] != '\\' by {
+        if k < a.len() { assert((a + b)[k] == a[k]); } else { assert((a + b)[k] == b[k - a.len()]); }
+    }
+}
+pub proof fn lemma_pad_plain(v: int, w: nat)
+    requires v >= 0
+    ensures plain(pad_int(v, w))
+{
+    axiom_pad_int(v, w);
+    let d = pad_int(v, w);
+    assert forall|k: int| 0 <= k < d.len() implies (#[trigger] d[k]) as u32 >= 0x20 && d[k] != '"' && d[k] != '\\' by { assert(is_digit(d[k])); }
+}
+pub proof fn lemma_time_plain(dt: DateTime)
+    requires dt_ok(dt)
+    ensures plain(time_text(dt))
+{
+    lemma_pad_plain(dt.year as int, 4); lemma_pad_plain(dt.month as int, 2); lemma_pad_plain(dt.day as int, 2);
+    lemma_pad_plain(dt.hour as int, 2); lemma_pad_plain(dt.min as int, 2); lemma_pad_plain(dt.sec as int, 2);
+    let t1 = pad_int(dt.year as int, 4) + seq!['-'];
+    lemma_plain_add(pad_int(dt.year as int, 4), seq!['-']);
+    lemma_plain_add(t1, pad_int(dt.month as int, 2));
+    lemma_plain_add(t1 + pad_int(dt.month as int, 2), seq!['-']);
+    let t2 = t1 + pad_int(dt.month as int, 2) + seq!['-'];
+    lemma_plain_add(t2, pad_int(dt.day as int, 2));
+    lemma_plain_add(t2 + pad_int(dt.day as int, 2), seq!['T']);
+    let t3 = t2 + pad_int(dt.day as int, 2) + seq!['T'];
+    lemma_plain_add(t3, pad_int(dt.hour as int, 2));
+    lemma_plain_add(t3 + pad_int(dt.hour as int, 2), seq![':']);
+    let t4 = t3 + pad_int(dt.hour as int, 2) + seq![':'];
+    lemma_plain_add(t4, pad_int(dt.min as int, 2));
+    lemma_plain_add(t4 + pad_int(dt.min as int, 2), seq![':']);
+    let t5 = t4 + pad_int(dt.min as int, 2) + seq![':'];
+    lemma_plain_add(t5, pad_int(dt.sec as int, 2));
+    lemma_plain_add(t5 + pad_int(dt.sec as int, 2), seq!['Z']);
+}
+pub open spec fn time_text(dt: DateTime) -> Seq<char> {
+    pad_int(dt.year as int, 4) + seq!['-'] + pad_int(dt.month as int, 2) + seq!['-'] + pad_int(dt.day as int, 2) + seq!['T']
+        + pad_int(dt.hour as int, 2) + seq![':'] + pad_int(dt.min as int, 2) + seq![':'] + pad_int(dt.sec as int, 2) + seq!['Z']
+}
+// a string without '"', '\\' and control characters is written as it is
+pub proof fn lemma_plain(s: Seq<char>)
+    requires plain(s)
+    ensures esc_all(s) =~= s
+    decreases s.len()
+{
+    if s.len() > 0 {
+        lemma_plain(s.drop_last());
+        assert(esc(s.last()) =~= seq![s.last()]);
+        assert(s.drop_last() + seq![s.last()] =~= s);
+    }
+}
+pub proof fn lemma_json_plain(s: Seq<char>)
+    requires plain(s)
+    ensures json_str(s) == seq!['"'] + s + seq!['"']
+{
+    lemma_plain(s);
+}
+pub proof fn lemma_member_of_tag(t: Tag)
+    ensures member_json(t) == mem_text(tag_member(t))
+{
+    reveal(mem_text);
+}
+pub proof fn lemma_tags_mems(ts: Seq<Tag>)
+    ensures tags_json(ts) == mems_text(tag_members(ts))
+    decreases ts.len()
+{
+    let ms = tag_members(ts);
+    if ts.len() == 0 {
+    } else if ts.len() == 1 {
+        lemma_member_of_tag(ts[0]);
+        assert(ms[0] == tag_member(ts[0]));
+    } else {
+        lemma_tags_mems(ts.drop_last());
+        lemma_member_of_tag(ts.last());
+        assert(tag_members(ts.drop_last()) =~= ms.drop_last());
+        assert(ms.last() == tag_member(ts.last()));
+    }
+}
+pub proof fn lemma_mems_concat(a: Seq<(Seq<char>, JVal)>, b: Seq<(Seq<char>, JVal)>)
+    requires a.len() > 0, b.len() > 0
+    ensures mems_text(a + b) == mems_text(a) + seq![','] + mems_text(b)
+    decreases b.len()
+{
+    let ab = a + b;
+    assert(ab.last() == b.last());
+    if b.len() == 1 {
+        assert(ab.drop_last() =~= a);
+        assert(mems_text(b) == mem_text(b[0]));
+    } else {
+        lemma_mems_concat(a, b.drop_last());
+        assert(ab.drop_last() =~= a + b.drop_last());
+        let x = mems_text(a); let c = seq![',']; let y = mems_text(b.drop_last()); let z = mem_text(b.last());
+        assert(mems_text(ab) == (x + c + y) + c + z);
+        assert(mems_text(b) == y + c + z);
+        assert((x + c + y) + c + z =~= x + c + (y + c + z));
+    }
+}
+// pure regrouping of twenty pieces (no definition is unfolded here)
+pub proof fn lemma_regroup(a0: Seq<char>, y: Seq<char>, c1: Seq<char>, m: Seq<char>, c2: Seq<char>, d: Seq<char>, c3: Seq<char>, h: Seq<char>, c4: Seq<char>,
+        mi: Seq<char>, c5: Seq<char>, s: Seq<char>, b: Seq<char>, l: Seq<char>, c6: Seq<char>, x: Seq<char>, c7: Seq<char>, n: Seq<char>, e: Seq<char>)
+    ensures
+        Seq::<char>::empty() + a0 + y + c1 + m + c2 + d + c3 + h + c4 + mi + c5 + s + b + l + c6 + x + c7 + n + e
+            == a0 + (y + c1 + m + c2 + d + c3 + h + c4 + mi + c5 + s + b) + l + (c6 + x + c7) + n + e,
+        Seq::<char>::empty() + a0 + y + c1 + m + c2 + d + c3 + h + c4 + mi + c5 + s + b + l + c6 + n + e
+            == a0 + (y + c1 + m + c2 + d + c3 + h + c4 + mi + c5 + s + b) + l + c6 + n + e,
+{
+    assert(Seq::<char>::empty() + a0 + y + c1 + m + c2 + d + c3 + h + c4 + mi + c5 + s + b + l + c6 + x + c7 + n + e
+        =~= a0 + (y + c1 + m + c2 + d + c3 + h + c4 + mi + c5 + s + b) + l + (c6 + x + c7) + n + e);
+    assert(Seq::<char>::empty() + a0 + y + c1 + m + c2 + d + c3 + h + c4 + mi + c5 + s + b + l + c6 + n + e
+        =~= a0 + (y + c1 + m + c2 + d + c3 + h + c4 + mi + c5 + s + b) + l + c6 + n + e);
+}
+pub open spec fn event_ok2(ev: LogEvent) -> bool {
+    &&& dt_ok(datetime_of(ev.time_()))
+    &&& forall|i: int| 0 <= i < ev.tags_().0@.len() ==> ((#[trigger] ev.tags_().0@[i]).value matches TagValue::Float(x) ==> raw_ok(x@))
+}
+pub proof fn lemma_raw_value_ok(v: TagValue)
+    requires v matches TagValue::Float(x) ==> raw_ok(x@)
+    ensures val_ok(jval(v))
+{
+    match v {
+        TagValue::Str(x) => {}, TagValue::String(x) => {},
+        TagValue::Bool(x) => {}, TagValue::Null => {}, TagValue::Float(x) => {},
+        TagValue::I8(x) => { lemma_dec_raw(x as int); }, TagValue::I16(x) => { lemma_dec_raw(x as int); }, TagValue::I32(x) => { lemma_dec_raw(x as int); },
+        TagValue::I64(x) => { lemma_dec_raw(x as int); }, TagValue::I128(x) => { lemma_dec_raw(x as int); }, TagValue::U8(x) => { lemma_dec_raw(x as int); },
+        TagValue::U16(x) => { lemma_dec_raw(x as int); }, TagValue::U32(x) => { lemma_dec_raw(x as int); }, TagValue::U64(x) => { lemma_dec_raw(x as int); },
+        TagValue::U128(x) => { lemma_dec_raw(x as int); }, TagValue::Usize(x) => { lemma_dec_raw(x as int); },
+    }
+}
+pub proof fn lemma_dec_raw(v: int)
+    ensures raw_ok(dec_int(v))
+{
+    axiom_dec_int(v);
+    let d = dec_int(v);
+    assert forall|k: int| 0 <= k < d.len() implies (#[trigger] d[k]) != '"' && d[k] != ',' && d[k] != '}' && d[k] != ':' && (d[k] as u32) > 0x20 by {
+        assert(is_digit(d[k]) || d[k] == '-');
+    }
+}
+pub open spec fn lit_time() -> Seq<char> { seq!['"', 't', 'i', 'm', 'e', '"', ':', '"'] }
+pub open spec fn lit_level() -> Seq<char> { seq!['"', ',', '"', 'l', 'e', 'v', 'e', 'l', '"', ':', '"'] }
+pub open spec fn lit_ns() -> Seq<char> { seq!['"', 't', 'i', 'm', 'e', '_', 'n', 's', '"', ':'] }
+// a member with a plain key (no quote, backslash or control character) as text
+pub proof fn lemma_mem_str(key: Seq<char>, v: Seq<char>)
+    requires plain(key), plain(v)
+    ensures mem_text((key, JVal::Str(v))) == seq!['"'] + key + seq!['"', ':', '"'] + v + seq!['"']
+{
+    reveal(mem_text);
+    lemma_json_plain(key); lemma_json_plain(v);
+    let q = seq!['"'];
+    assert((q + key + q) + seq![':'] + (q + v + q) =~= q + key + seq!['"', ':', '"'] + v + q);
+}
+pub proof fn lemma_mem_raw(key: Seq<char>, r: Seq<char>)
+    requires plain(key)
+    ensures mem_text((key, JVal::Raw(r))) == seq!['"'] + key + seq!['"', ':'] + r
+{
+    reveal(mem_text);
+    lemma_json_plain(key);
+    let q = seq!['"'];
+    assert((q + key + q) + seq![':'] + r =~= q + key + seq!['"', ':'] + r);
+}
+// the fixed members as text
+pub proof fn lemma_fixed_text(tt: Seq<char>, lt: Seq<char>, nn: Seq<char>)
+    requires plain(tt), plain(lt)
+    ensures
+        mems_text(seq![(k_time(), JVal::Str(tt)), (k_level(), JVal::Str(lt))]) == lit_time() + tt + lit_level() + lt + seq!['"'],
+        mems_text(seq![(k_time_ns(), JVal::Raw(nn))]) == lit_ns() + nn,
+{
+    let m_time = (k_time(), JVal::Str(tt));
+    let m_level = (k_level(), JVal::Str(lt));
+    let m_ns = (k_time_ns(), JVal::Raw(nn));
+    assert(plain(k_time())); assert(plain(k_level())); assert(plain(k_time_ns()));
+    lemma_mem_str(k_time(), tt); lemma_mem_str(k_level(), lt); lemma_mem_raw(k_time_ns(), nn);
+    let a = mem_text(m_time); let b = mem_text(m_level); let c = mem_text(m_ns);
+    let fixed = seq![m_time, m_level];
+    assert(fixed.len() == 2 && fixed.last() == m_level);
+    assert(fixed.drop_last().len() == 1 && fixed.drop_last()[0] == m_time);
+    assert(mems_text(fixed.drop_last()) == a);
+    assert(mems_text(fixed) == a + seq![','] + b);
+    lemma_fixed_glue(tt, lt, nn);
+    let one = seq![m_ns];
+    assert(one.len() == 1 && one[0] == m_ns);
+    assert(mems_text(one) == c);
+}
+pub proof fn lemma_fixed_glue(tt: Seq<char>, lt: Seq<char>, nn: Seq<char>)
+    ensures
+        (seq!['"'] + k_time() + seq!['"', ':', '"'] + tt + seq!['"']) + seq![','] + (seq!['"'] + k_level() + seq!['"', ':', '"'] + lt + seq!['"'])
+            == lit_time() + tt + lit_level() + lt + seq!['"'],
+        seq!['"'] + k_time_ns() + seq!['"', ':'] + nn == lit_ns() + nn,
+{
+    assert((seq!['"'] + k_time() + seq!['"', ':', '"'] + tt + seq!['"']) + seq![','] + (seq!['"'] + k_level() + seq!['"', ':', '"'] + lt + seq!['"'])
+            =~= lit_time() + tt + lit_level() + lt + seq!['"']);
+    assert(seq!['"'] + k_time_ns() + seq!['"', ':'] + nn =~= lit_ns() + nn);
+}
+// the written line is '{' + the member list as text + '}' + line break
+pub proof fn lemma_line_text(ev: LogEvent)
+    requires event_ok2(ev)
+    ensures jsonl_line(ev) == seq!['{'] + mems_text(line_members(ev)) + seq!['}'] + seq!['\n']
+{
+    let dt = datetime_of(ev.time_());
+    let ts = ev.tags_().0@;
+    let tt = time_text(dt);
+    let lt = level_text(ev.level_());
+    let nn = dec_int(epoch_ns_of(ev.time_()) as int);
+    let fixed = seq![(k_time(), JVal::Str(tt)), (k_level(), JVal::Str(lt))];
+    let last = seq![(k_time_ns(), JVal::Raw(nn))];
+    let ms = line_members(ev);
+    lemma_time_plain(dt);
+    assert(plain(lt));
+    lemma_fixed_text(tt, lt, nn);
+    lemma_tags_mems(ts);
+    let ft = mems_text(fixed);
+    let xt = tags_json(ts);
+    let nt = mems_text(last);
+    if ts.len() == 0 {
+        assert(tag_members(ts) =~= Seq::<(Seq<char>, JVal)>::empty());
+        assert(ms =~= fixed + last);
+        lemma_mems_concat(fixed, last);
+        assert(mems_text(ms) == ft + seq![','] + nt);
+    } else {
+        lemma_mems_concat(fixed, tag_members(ts));
+        lemma_mems_concat(fixed + tag_members(ts), last);
+        assert(mems_text(ms) == ft + seq![','] + xt + seq![','] + nt);
+    }
+    lemma_regroup(seq!['{', '"', 't', 'i', 'm', 'e', '"', ':', '"'], pad_int(dt.year as int, 4), seq!['-'], pad_int(dt.month as int, 2), seq!['-'],
+        pad_int(dt.day as int, 2), seq!['T'], pad_int(dt.hour as int, 2), seq![':'], pad_int(dt.min as int, 2), seq![':'], pad_int(dt.sec as int, 2),
+        seq!['Z', '"', ',', '"', 'l', 'e', 'v', 'e', 'l', '"', ':', '"'], lt,
+        if ts.len() == 0 { seq!['"', ',', '"', 't', 'i', 'm', 'e', '_', 'n', 's', '"', ':'] } else { seq!['"', ','] },
+        xt, seq![',', '"', 't', 'i', 'm', 'e', '_', 'n', 's', '"', ':'], nn, seq!['}', '\n']);
+    lemma_glue(tt, lt, xt, nn, ts.len() == 0, pad_int(dt.year as int, 4), pad_int(dt.month as int, 2), pad_int(dt.day as int, 2), pad_int(dt.hour as int, 2), pad_int(dt.min as int, 2), pad_int(dt.sec as int, 2));
+}
+// the regrouped pieces are '{' + fixed members + [',' tags] + ',' + time_ns member + '}' + line break (literal pieces only)
+pub proof fn lemma_glue(tt: Seq<char>, lt: Seq<char>, xt: Seq<char>, nn: Seq<char>, no_tags: bool, y: Seq<char>, m: Seq<char>, d: Seq<char>, h: Seq<char>, mi: Seq<char>, s: Seq<char>)
+    requires tt == y + seq!['-'] + m + seq!['-'] + d + seq!['T'] + h + seq![':'] + mi + seq![':'] + s + seq!['Z']
+    ensures
+        no_tags ==> seq!['{', '"', 't', 'i', 'm', 'e', '"', ':', '"'] + (y + seq!['-'] + m + seq!['-'] + d + seq!['T'] + h + seq![':'] + mi + seq![':'] + s + seq!['Z', '"', ',', '"', 'l', 'e', 'v', 'e', 'l', '"', ':', '"'])
+                + lt + seq!['"', ',', '"', 't', 'i', 'm', 'e', '_', 'n', 's', '"', ':'] + nn + seq!['}', '\n']
+            == seq!['{'] + ((lit_time() + tt + lit_level() + lt + seq!['"']) + seq![','] + (lit_ns() + nn)) + seq!['}'] + seq!['\n'],
+        !no_tags ==> seq!['{', '"', 't', 'i', 'm', 'e', '"', ':', '"'] + (y + seq!['-'] + m + seq!['-'] + d + seq!['T'] + h + seq![':'] + mi + seq![':'] + s + seq!['Z', '"', ',', '"', 'l', 'e', 'v', 'e', 'l', '"', ':', '"'])
+                + lt + (seq!['"', ','] + xt + seq![',', '"', 't', 'i', 'm', 'e', '_', 'n', 's', '"', ':']) + nn + seq!['}', '\n']
+            == seq!['{'] + ((lit_time() + tt + lit_level() + lt + seq!['"']) + seq![','] + xt + seq![','] + (lit_ns() + nn)) + seq!['}'] + seq!['\n'],
+{
+    if no_tags {
+        assert(seq!['{', '"', 't', 'i', 'm', 'e', '"', ':', '"'] + (y + seq!['-'] + m + seq!['-'] + d + seq!['T'] + h + seq![':'] + mi + seq![':'] + s + seq!['Z', '"', ',', '"', 'l', 'e', 'v', 'e', 'l', '"', ':', '"'])
+                + lt + seq!['"', ',', '"', 't', 'i', 'm', 'e', '_', 'n', 's', '"', ':'] + nn + seq!['}', '\n']
+            =~= seq!['{'] + ((lit_time() + tt + lit_level() + lt + seq!['"']) + seq![','] + (lit_ns() + nn)) + seq!['}'] + seq!['\n']);
+    } else {
+        assert(seq!['{', '"', 't', 'i', 'm', 'e', '"', ':', '"'] + (y + seq!['-'] + m + seq!['-'] + d + seq!['T'] + h + seq![':'] + mi + seq![':'] + s + seq!['Z', '"', ',', '"', 'l', 'e', 'v', 'e', 'l', '"', ':', '"'])
+                + lt + (seq!['"', ','] + xt + seq![',', '"', 't', 'i', 'm', 'e', '_', 'n', 's', '"', ':']) + nn + seq!['}', '\n']
+            =~= seq!['{'] + ((lit_time() + tt + lit_level() + lt + seq!['"']) + seq![','] + xt + seq![','] + (lit_ns() + nn)) + seq!['}'] + seq!['\n']);
+    }
+}
+// THE object-level theorem: the line written for an event is one JSON object, on one line, whose members are exactly
+// time, level, one member per tag in order (string tags as strings that read back as the tag's text, the others as their
+// bare token), and time_ns
+pub proof fn thm_line_is_object(ev: LogEvent)
+    requires event_ok2(ev)
+    ensures c17(parse_line(jsonl_line(ev)) == Some(line_members(ev)))
+{
+    let ts = ev.tags_().0@;
+    let ms = line_members(ev);
+    lemma_dec_raw(epoch_ns_of(ev.time_()) as int);
+    assert forall|i: int| 0 <= i < ms.len() implies val_ok(#[trigger] ms[i].1) by {
+        if 2 <= i < 2 + ts.len() { assert(ms[i] == tag_member(ts[i - 2])); lemma_raw_value_ok(ts[i - 2].value); }
+    }
+    lemma_line_text(ev);
+    let t = seq!['{'] + mems_text(ms) + seq!['}'] + seq!['\n'];
+    lemma_parse_members(seq!['{'], ms, seq!['\n']);
+    assert(t[0] == '{');
+    assert(t[t.len() - 1] == '\n');
 }
